@@ -180,7 +180,7 @@ func main() {
 		check(run, c)
 		return
 	}
-	n := run.Pick(5000, 2000000)
+	n := run.Pick(5000, 8000000)
 	if run.Mode() == "race" {
 		n = run.Pick(300, 5000)
 	}
